@@ -88,6 +88,215 @@ def kernels(ctx):
     return K
 
 
+# ---------------------------------------------------------------------------------------------- ip (BV mode)
+
+def _mask(p, W):
+    """netmask of prefix length p (0..W) as an integer / bit-vector of width W"""
+    if isinstance(p, z3.ExprRef):
+        pw = z3.ZeroExt(W - p.size(), p)
+        ones = z3.BitVecVal((1 << W) - 1, W)
+        return z3.If(pw == 0, z3.BitVecVal(0, W), ones << (z3.BitVecVal(W, W) - pw))
+    return 0 if p == 0 else (((1 << W) - 1) << (W - p)) & ((1 << W) - 1)
+
+
+def _ule(a, b):
+    return z3.ULE(a, b) if isinstance(a, z3.ExprRef) or isinstance(b, z3.ExprRef) else a <= b
+
+
+def ip_text(v6, a, p):
+    if not v6:
+        return f'{(a >> 24) & 255}.{(a >> 16) & 255}.{(a >> 8) & 255}.{a & 255}/{p}'
+    return ':'.join(f'{(a >> (112 - 16 * i)) & 0xffff:x}' for i in range(8)) + f'/{p}'
+
+
+def ip_kernels(ctx):
+    P = ctx.prog('core')
+    K = []
+
+    def ipval(ex, fam, a, p):
+        return Agg('struct', 'IPAddr', None, [Agg('variant', 'std::net::IpAddr', fam, [Agg('struct', 'Ipv' + fam[1] + 'Addr', None, [a])]), p], ('addr', 'prefix'))
+
+    def dec_bool(ex, o):
+        return 'val', [o.val.t]
+    f_range = P.method('extensions/ipaddr.rs', 'is_in_range', nargs=2, arg0=r'&IPAddr')
+    for fam_s, fam_o in (('V4', 'V4'), ('V6', 'V6'), ('V4', 'V6'), ('V6', 'V4')):
+        W_s, W_o = (32 if fam_s == 'V4' else 128), (32 if fam_o == 'V4' else 128)
+        ty_s, ty_o = ('u32' if fam_s == 'V4' else 'u128'), ('u32' if fam_o == 'V4' else 'u128')
+
+        def make(ex, fam_s=fam_s, fam_o=fam_o, ty_s=ty_s, ty_o=ty_o):
+            a, b, ps, po = ex.fresh_int(ty_s, 'a'), ex.fresh_int(ty_o, 'b'), ex.fresh_int('u8', 'ps'), ex.fresh_int('u8', 'po')
+            heap = {'S': ipval(ex, fam_s, a, ps), 'O': ipval(ex, fam_o, b, po)}
+            ex.initial_heap = heap
+            from ..executor import Ref
+            return {'a': a.t, 'b': b.t, 'ps': ps.t, 'po': po.t}, [Ref(0, ('local', 'S')), Ref(0, ('local', 'O'))], \
+                [z3.ULE(ps.t, 32 if fam_s == 'V4' else 128), z3.ULE(po.t, 32 if fam_o == 'V4' else 128)]      # representation invariant: prefix <= width
+
+        def spec(ins, tag, vals, same=(fam_s == fam_o), W=W_s):
+            if tag != 'val':
+                return False
+            if not same:
+                return vals[0] == False
+            # every address of self's block lies in other's block  <=>  other's prefix is not longer and the top po bits agree
+            m = _mask(ins['po'], W)
+            return vals[0] == And(_ule(ins['po'], ins['ps']), (ins['a'] & m) == (ins['b'] & m))
+
+        def native(nat, c, fam_s=fam_s, fam_o=fam_o):
+            e = f'ip("{ip_text(fam_s == "V6", c["a"], c["ps"])}").isInRange(ip("{ip_text(fam_o == "V6", c["b"], c["po"])}"))'
+            return _as_val(eval_long(nat, e))
+
+        def gen(rand, W_s=W_s, W_o=W_o):
+            a = rand.getrandbits(W_s)
+            po = rand.randint(0, W_o)
+            b = rand.getrandbits(W_o)
+            if W_s == W_o and rand.random() < 0.7:
+                m = _mask(po, W_o)
+                b = (a & m) | (b & ~m & ((1 << W_o) - 1))      # make the top po bits agree so that both answers occur
+            return {'a': a, 'b': b, 'ps': rand.choice([0, 1, 8, W_s - 1, W_s, rand.randint(0, W_s)]), 'po': rand.choice([0, po, po, W_o])}
+        Kk = Kernel(f'IPAddr::is_in_range[{fam_s} in {fam_o}]', f_range, [('a', ty_s), ('b', ty_o), ('ps', 'u8'), ('po', 'u8')], None, dec_bool, spec,
+                    native=native, make=make, gen=gen, mode='bv', expect_tags=('val',))
+        Kk.samples_fn = (lambda W_s=W_s, W_o=W_o: [{'a': 0xC0A80001 if W_s == 32 else 1, 'b': 0x0A000000 if W_o == 32 else 0xff << 120, 'ps': W_s, 'po': 0},
+                                                    {'a': 0, 'b': 0, 'ps': 0, 'po': 0}, {'a': (1 << W_s) - 1, 'b': (1 << W_o) - 1, 'ps': W_s, 'po': W_o},
+                                                    {'a': 5, 'b': 4, 'ps': W_s, 'po': W_o - 1}, {'a': 5, 'b': 4, 'ps': W_s - 1, 'po': W_o}])
+        K.append(Kk)
+    for meth, v4lo, v4p, v6spec in (('is_loopback', 127, 8, 'loop'), ('is_multicast', 14, 4, 'multi')):
+        f = P.method('extensions/ipaddr.rs', meth, nargs=1, arg0=r'&IPAddr')
+        for fam in ('V4', 'V6'):
+            W = 32 if fam == 'V4' else 128
+            ty = 'u32' if fam == 'V4' else 'u128'
+
+            def make(ex, fam=fam, ty=ty, W=W):
+                a, p = ex.fresh_int(ty, 'a'), ex.fresh_int('u8', 'p')
+                ex.initial_heap = {'S': ipval(ex, fam, a, p)}
+                from ..executor import Ref
+                return {'a': a.t, 'p': p.t}, [Ref(0, ('local', 'S'))], [z3.ULE(p.t, W)]
+
+            def spec(ins, tag, vals, fam=fam, meth=meth, W=W):
+                if tag != 'val':
+                    return False
+                a, p = ins['a'], ins['p']
+                # the whole block is inside 127.0.0.0/8 | ::1/128 | 224.0.0.0/4 | ff00::/8
+                if meth == 'is_loopback':
+                    inside = And((a & _mask(8, 32)) == (127 << 24), _ule(8, p)) if fam == 'V4' else And(a == 1, _ule(128, p))
+                else:
+                    inside = And((a & _mask(4, 32)) == (14 << 28), _ule(4, p)) if fam == 'V4' else And((a & _mask(8, 128)) == (0xff << 120), _ule(8, p))
+                return vals[0] == inside
+
+            def native(nat, c, fam=fam, meth=meth):
+                cedar = 'isLoopback' if meth == 'is_loopback' else 'isMulticast'
+                return _as_val(eval_long(nat, f'ip("{ip_text(fam == "V6", c["a"], c["p"])}").{cedar}()'))
+
+            def gen(rand, fam=fam, meth=meth, W=W):
+                a = rand.getrandbits(W)
+                if rand.random() < 0.6:
+                    if meth == 'is_loopback':
+                        a = ((127 << 24) | rand.getrandbits(24)) if fam == 'V4' else rand.choice([1, 1, 0, 2])
+                    else:
+                        a = ((14 << 28) | rand.getrandbits(28)) if fam == 'V4' else ((0xff << 120) | rand.getrandbits(120))
+                return {'a': a, 'p': rand.choice([0, 3, 4, 7, 8, 9, W - 1, W, rand.randint(0, W)])}
+            K.append(Kernel(f'IPAddr::{meth}[{fam}]', f, [('a', ty), ('p', 'u8')], None, dec_bool, spec, native=native, make=make, gen=gen, mode='bv', expect_tags=('val',)))
+    return K
+
+
+# ---------------------------------------------------------------------------------------------- decimal / UTC offset
+
+def decimal_text(v):
+    a = abs(v)
+    return ('-' if v < 0 else '') + f'{a // 10000}.{a % 10000:04d}'
+
+
+def misc_kernels(ctx):
+    P = ctx.prog('core')
+    K = []
+    # decimal comparisons: the boolean handed to Value::from is <, <=, >, >= of the two raw values, left argument first
+    for meth, cedar, op in (('decimal_lt', 'lessThan', lambda a, b: a < b), ('decimal_le', 'lessThanOrEqual', lambda a, b: a <= b),
+                            ('decimal_gt', 'greaterThan', lambda a, b: a > b), ('decimal_ge', 'greaterThanOrEqual', lambda a, b: a >= b)):
+        f = P.method('extensions/decimal.rs', meth, nargs=2)
+
+        def make(ex):
+            from ..executor import Ref, Opaque
+            from ..models import ok as OK
+            a, b = ex.fresh_int('i64', 'left'), ex.fresh_int('i64', 'right')
+            lv, rv = Opaque('ast::value::Value', 'left value'), Opaque('ast::value::Value', 'right value')
+            vals = {lv.id: a, rv.id: b}
+
+            def as_decimal(ex, st, c, A):
+                v = ex.read(st, A[0].fid, A[0].place)
+                return OK(ex.new_cell(st, Agg('struct', 'Decimal', None, [vals[v.id]], ('value',)), 'decimal'))
+            ex.stub(r'(^|::)as_decimal$', as_decimal, 'as_decimal: both arguments are decimals with arbitrary raw values (type errors are C02)')
+            ex.stub(r'<.*ExtensionOutputValue as From<.*Value>>::from$|<.*Value as Into<.*ExtensionOutputValue>>::into$', lambda ex, st, c, A: A[0], 'Value -> ExtensionOutputValue (identity wrapper)')
+            ex.initial_heap = {'L': lv, 'R': rv}
+            return {'a': a.t, 'b': b.t}, [Ref(0, ('local', 'L')), Ref(0, ('local', 'R'))], []
+
+        def decode(ex, o):
+            v = o.val
+            try:
+                lit = v.fields[0].fields[0].fields[0]
+                if v.variant == 'Ok' and lit.variant == 'Bool':
+                    return 'val', [lit.fields[0].t]
+            except (AttributeError, IndexError):
+                pass
+            raise NotEncoded(f'{meth} result {v!r}')
+
+        def spec(ins, tag, vals, op=op):
+            return tag == 'val' and (vals[0] == op(ins['a'], ins['b']))
+
+        def native(nat, c, cedar=cedar):
+            return _as_val(eval_long(nat, f'decimal("{decimal_text(c["a"])}").{cedar}(decimal("{decimal_text(c["b"])}"))'))
+        K.append(Kernel(f'decimal::{meth}', f, [('a', 'i64'), ('b', 'i64')], None, decode, spec, native=native, make=make, expect_tags=('val',),
+                        samples=[(0, 0), (1, 0), (0, 1), (-1, 1), (I64_MIN, I64_MAX), (I64_MAX, I64_MIN), (I64_MIN, I64_MIN), (5, 5), (-5, -5), (10000, 9999)]))
+
+    # checked_mul_pow(x, y) for y <= 4 (the only exponents its caller passes): Ok(x * 10^y) iff it fits
+    f = P.method('extensions/decimal.rs', 'checked_mul_pow', nargs=2)
+
+    def spec_pow(ins, tag, vals):
+        y = ins['y']
+        p = If(y == 0, 1, If(y == 1, 10, If(y == 2, 100, If(y == 3, 1000, 10000))))
+        e = ins['x'] * p
+        if tag == 'Ok':
+            return And(in_range(e, 'i64'), vals[0] == e)
+        if tag == 'Err':
+            return Not(in_range(e, 'i64'))
+        return False
+
+    def native_pow(nat, c):
+        if c['y'] != 4 or c['x'] == I64_MIN:
+            return None                      # only x * 10^4 is reachable for an arbitrary x through decimal("<x>.0")
+        a = nat.ask({'op': 'eval', 'expr': f'decimal("{c["x"]}.0")'})
+        if 'ok' in a:
+            import re as _re
+            m = _re.search(r'(-?)(\d+)\.(\d{1,4})', a['ok']['v'])
+            return 'Ok', [int(m.group(1) + m.group(2) + m.group(3).ljust(4, '0'))]
+        return 'Err', []
+    K.append(Kernel('decimal::checked_mul_pow', f, [('x', 'i64'), ('y', 'u32')], lambda ex, i: [i['x'], i['y']], lambda ex, o: scalars_only(flat(ex, o)), spec_pow,
+                    native=native_pow, pre=lambda x, y: y <= 4, expect_tags=('Ok', 'Err'),
+                    samples=[(922337203685477, 4), (922337203685478, 4), (-922337203685477, 4), (-922337203685478, 4), (0, 4), (1, 4), (-1, 4)]))
+
+    # UTCOffset::{is_valid, to_seconds}: hh, mm are what two captured digits can produce (<= 99)
+    fv = P.method('extensions/datetime.rs', 'is_valid', nargs=1, arg0=r'&UTCOffset')
+    fs = P.method('extensions/datetime.rs', 'to_seconds', nargs=1, arg0=r'&UTCOffset')
+
+    def mk_off(ex, i):
+        from ..executor import Ref
+        ex.initial_heap = {'U': Agg('struct', 'UTCOffset', None, [i['pos'], i['hh'], i['mm']], ('positive', 'hh', 'mm'))}
+        return [Ref(0, ('local', 'U'))]
+
+    def native_off(nat, c, want):
+        s = f'datetime("2000-01-01T00:00:00{"+" if c["pos"] else "-"}{c["hh"]:02d}{c["mm"]:02d}")'
+        r = eval_long(nat, epoch_of(s))
+        if want == 'valid':
+            return 'val', [r[0] == 'Some']
+        if r[0] != 'Some':
+            return None
+        return 'val', [(946684800000 - r[1][0]) // 1000]
+    K.append(Kernel('UTCOffset::is_valid', fv, [('pos', 'bool'), ('hh', 'u32'), ('mm', 'u32')], mk_off, lambda ex, o: ('val', [o.val.t]),
+                    lambda ins, tag, vals: tag == 'val' and (vals[0] == And(ins['hh'] < 24, ins['mm'] < 60)), native=lambda nat, c: native_off(nat, c, 'valid'),
+                    pre=lambda pos, hh, mm: And(hh <= 99, mm <= 99), expect_tags=('val',), samples=[(True, 23, 59), (True, 24, 0), (False, 0, 60), (False, 23, 59), (True, 0, 0), (True, 99, 99)]))
+    K.append(Kernel('UTCOffset::to_seconds', fs, [('pos', 'bool'), ('hh', 'u32'), ('mm', 'u32')], mk_off, lambda ex, o: scalars_only(flat(ex, o)),
+                    lambda ins, tag, vals: tag == 'val' and (vals[0] == If(ins['pos'], 1, -1) * (ins['hh'] * 3600 + ins['mm'] * 60)), native=lambda nat, c: native_off(nat, c, 'seconds'),
+                    pre=lambda pos, hh, mm: And(hh <= 99, mm <= 99), expect_tags=('val',), samples=[(True, 23, 59), (False, 23, 59), (False, 0, 1), (True, 12, 30), (False, 12, 30)]))
+    return K
+
+
 def _as_val(r):
     tag, vals = r
     return ('val', vals) if tag in ('Some', 'Bool') else (tag, vals)
@@ -96,6 +305,8 @@ def _as_val(r):
 def families(ctx):
     ks = []
     ctx.guarded('C07/locate-kernels', lambda: ks.extend(kernels(ctx)))
+    ctx.guarded('C07/locate-ip-kernels', lambda: ks.extend(ip_kernels(ctx)))
+    ctx.guarded('C07/locate-decimal-offset-kernels', lambda: ks.extend(misc_kernels(ctx)))
     return [(K.name, (lambda K=K: run_kernel(ctx, K))) for K in ks]
 
 
